@@ -59,4 +59,23 @@ def narrowing_findings(f, bounded_int_fields=()):
                 if names and names <= set(bounded_int_fields):
                     continue
                 out.append((ev, "int difference '%s' of unbounded operands can overflow" % S(inner)))
+        # a three-way result derived from a full-width difference still wraps: (intptr_t)a - (intptr_t)b overflows for operands
+    # more than half the range apart and the order becomes cyclic
+    p0 = {p["name"] for p in f.params}
+    for ev in f.events():
+        e = ev.rhs if ev.kind in ("decl", "assign") else (ev.e if ev.kind == "ret" else None)
+        if e is None:
+            continue
+        for n in walk(e):
+            if n.get("k") == "bin" and n["op"] == "-" and not (_is_relational(n["l"]) and _is_relational(n["r"])):
+                t = n.get("t", "")
+                roots = set()
+                for side in (n["l"], n["r"]):
+                    for m in walk(side):
+                        if m.get("k") == "var" and m.get("name") in p0:
+                            roots.add(m["name"])
+                wide = any(w in t for w in ("long", "intptr", "ptrdiff", "size_t", "uint64", "int64")) or t.endswith("*")
+                if len(roots) >= 2 and wide and not any(x[0] is ev for x in out):
+                    out.append((ev, "order derived from the full-width difference '%s' (%s): it wraps for operands more than half the range apart, "
+                                    "the order becomes cyclic" % (S(n), t)))
     return out
